@@ -402,7 +402,14 @@ func (h *Hub) topicUnreg(sess *Session, topic string, msg *ClientComMessage, rea
 		// Case 1 (unregister and delete)
 		if t := h.topicGet(topic); t != nil {
 			// Case 1.1: topic is online
-			if (!asUid.IsZero() && t.owner == asUid) || (t.cat == types.TopicCatP2P && t.subsCount() < 2) {
+			p2pLast := false
+			if t.cat == types.TopicCatP2P && t.subsCount() < 2 {
+				// The last participant deletes the whole topic - not somebody who has left it already.
+				// (asUid is zero when the topic itself asks: its last participant has just unsubscribed.)
+				pud, found := t.perUser[asUid]
+				p2pLast = asUid.IsZero() || (found && !pud.deleted)
+			}
+			if (!asUid.IsZero() && t.owner == asUid) || p2pLast {
 				// Case 1.1.1: requester is the owner or last sub in a p2p topic
 				t.markPaused(true)
 				hard := true
